@@ -178,7 +178,7 @@ def _same(viols, cls):
     return None
 
 
-def minimise(W, prop, cfg, ops, viol, budget=500):
+def minimise(W, prop, cfg, ops, viol, budget=500, cold_pass=False):
     """ddmin over the op list, then per-op argument shrinking, accepting a
     candidate only if a fresh pristine run reports the same violation class.
     Returns a replay record, or None if the minimised violation does not speak
@@ -202,10 +202,13 @@ def minimise(W, prop, cfg, ops, viol, budget=500):
         return (log, v) if v else None
 
     cur = [op for op in ops]
-    # Minimisation and replay execute every candidate in a freshly started interpreter, so that the
-    # replay file reproduces exactly (memory addresses included).  Only if the violation does not show
-    # there at all (behaviour that depends on the long-lived simulated-caller process) fall back to it.
-    if not fails(cur):
+    # Pass 1 minimises with the fast simulated-caller process; the result is then confirmed in a freshly
+    # started interpreter, which is also where a replay file is executed (same bytes, same program: the
+    # same execution down to memory addresses).  If that confirmation fails (address-dependent behaviour),
+    # pass 2 minimises again with a fresh interpreter per candidate (about 70 ms each); only if the
+    # violation does not show there at all is the server-mode result kept, flagged as such.
+    mode["cold"] = cold_pass
+    if cold_pass and not fails(cur):
         mode["cold"] = False
     # everything after the violating op is irrelevant
     cut = cur[:viol.idx + 1]
@@ -249,7 +252,13 @@ def minimise(W, prop, cfg, ops, viol, budget=500):
                     cur = cand
     res = None
     spent[0] = 0
-    res = fails(cur)
+    if not cold_pass:
+        mode["cold"] = True
+        res = fails(cur)              # confirmation in a freshly started interpreter
+        if res is None:
+            return minimise(W, prop, cfg, ops, viol, budget, cold_pass=True)
+    else:
+        res = fails(cur)
     if res is None:
         return None
     log, v = res
